@@ -26,6 +26,11 @@ CHECKS = {
             "For each of 29 parser/decoder targets and every seed (repository fixtures, builder-made artifacts, minimal text documents): every byte substitution (all 255 values for seeds up to 4 KiB, boundary values otherwise), every truncation length, extensions, every 2/3/4/5/8-byte window near start/end set to boundary values in both endiannesses, (thorough) every pair of boundary windows in headers/footers, every short string over the grammar tokens of the text formats. Each case runs in a worker process: a panic, an abort (incl. a single allocation request beyond 1 GiB + 64 MiB, refused by the counting allocator), 5 s of CPU time without returning, or a disproportionate allocation in a non-decompressing parser is a violation attributed to exactly that case.",
             "Trusted: worker isolation and the allocator's limits. Inputs more than one (thorough: two header/footer) deviations away from every seed are not reached; overflow checks are on (as in cargo test).",
             "DESIGN.md §4 C02"),
+    "C08": ("ENUM (isolated workers)", "exploration",
+            "deviation-bounded exhaustive mutation of builder-made artifacts and CDN fixtures per format; every accepted mutant is rebuilt, re-parsed and rebuilt again and compared byte-wise and through a per-format logical projection; exhaustive small builder programs; byte identity of every fixture",
+            "(i) For each format (BLTE, encoding, archive index/group, root V1-V4, install, download V1-V3, size, TVFS, patch archive, patch index, ZBSDIFF, build/CDN/patch/product/keyring config, BPSV, ESpec) every one-deviation mutant (byte substitution, truncation, extension, boundary windows; thorough: header/footer pairs) of 34 builder-made seeds and of the repository's fixtures that the parser accepts: build(parse(x)) must succeed, parse again, build again to identical bytes, and the logical projection (entries, keys, sizes, flags, tags; derived fields such as checksums, offsets and block grouping left out) must be unchanged. (ii) every builder program over small per-format alphabets (a few dozen to ~2000 programs per format): parse(build(v)) has the logical content of v. (iii) every fixture file and every ESpec string of the fixture lists round-trips to identical bytes. Cases run in isolated worker processes as in C02.",
+            "Trusted: the per-format projections (what counts as logical content) and worker isolation. Inputs more than one (thorough: two, header/footer) deviations from every seed are not reached; positions deep inside zero fill get boundary values only in the quick tier; fixtures above 32 KiB get quick positions even in the thorough tier. 12 known findings (KNOWN_FINDINGS.json).",
+            "DESIGN.md §4 C08, Appendix B.5"),
     "C03": ("ENUM", "exploration",
             "bounded-exhaustive enumeration of key sets straddling every page/block boundary, key sizes x offset widths, root versions x file counts, TVFS path trees and counts; built, serialized, parsed, then probed through every lookup flavour against a map model and a linear scan",
             "Encoding tables (1 KiB pages, 1-3 EKeys per CKey), CDN archive indices and archive groups (key sizes 1..16 x offset widths 4/5/6), root manifests V1-V4 x 0..=130 records x named counts x locales x FDID layouts, TVFS manifests (all path sets up to 4/5 paths, file counts crossing the offset-width switches, component lengths 1..511) and the ContentResolver chain: fillers put the page/block boundary at every position of an 8-key window, every subset of the window is inserted, every key, key+-1, all-00 and all-FF is probed through every lookup flavour incl. batch variants. Oracle: BTreeMap model; batch = single; every flavour = linear scan of the parsed entries.",
